@@ -51,6 +51,7 @@ func newEncoder(fileIO fileIO, delegate EncoderDelegate, basePath string, filePa
 	}
 
 	relFilePaths := make([]string, len(filePaths))
+	seenRelPaths := make(map[string]bool)
 	for i, path := range filePaths {
 		var relPath string
 		if !filepath.IsAbs(path) {
@@ -63,6 +64,12 @@ func newEncoder(fileIO fileIO, delegate EncoderDelegate, basePath string, filePa
 		if relPath[0] == '.' {
 			return nil, errors.New("data files must lie in basePath")
 		}
+		// A file listed twice would end up twice in the recovery
+		// set, which isn't a valid set (and doesn't verify).
+		if seenRelPaths[relPath] {
+			return nil, errors.New("duplicate file path")
+		}
+		seenRelPaths[relPath] = true
 		relFilePaths[i] = relPath
 	}
 
